@@ -331,7 +331,7 @@ Definition eq_res (a b : reslist) : bool := rall2 eq_opt a b.
 Definition fields_eq (o n : quota) : bool :=
   (q_plabel o =? q_plabel n) && Bool.eqb (q_is_parent o) (q_is_parent n)
   && (q_tree o =? q_tree n)
-  && Bool.eqb (q_ns_bad o) (q_ns_bad n) && eq_listZ (q_ns o) (q_ns n)
+  && (if q_ns_bad o then q_ns_bad n else negb (q_ns_bad n) && eq_listZ (q_ns o) (q_ns n))
   && eq_res (q_min o) (q_min n) && eq_res (q_max o) (q_max n).
 
 (* 0 = accepted and applied, -1 = accepted without any change (nothing relevant differs),
